@@ -47,7 +47,7 @@ Variable log : list Z.
 
 Inductive phase := PPrepare | PRunning | PReturned | PFailed.
 
-Record rstate := { m : sstate Z; last_sth : option Z; ph : phase }.
+Record rstate := { m : sstate Z; seen : list Z; ph : phase }.
 
 Fixpoint find_w (p : wstate Z -> bool) (l : list (wstate Z)) (i : nat) : option nat :=
   match l with
@@ -66,41 +66,56 @@ Definition sst (s : sstate Z) (l : label Z) : option (sstate Z) :=
 
 Definition bind {A B} (o : option A) (f : A -> option B) : option B :=
   match o with Some x => f x | None => None end.
+Definition olist {A} (o : option A) : list A := match o with Some x => [x] | None => [] end.
 
 Definition to_resp (r : option (list Z)) : resp Z := match r with None => RErr | Some es => ROk es end.
 
-(* a request for (a, b): either the remainder some worker holds, or the next range of the
-   generator handed to an idle worker (after adopting the last tree size seen, if the
-   generator had to wait for one) *)
-Definition replay_req (s : sstate Z) (sth : option Z) (a b : Z) (r : option (list Z)) : option (sstate Z) :=
+(* The hand-over of a range to a worker (LTake) and the adoption of a tree size (LAccept)
+   are not observable by themselves: a request for a range no worker holds is explained by
+   handing out the generator's next ranges to idle workers until (a, b) comes up (requests
+   of different workers may be logged out of order), adopting - whenever the generator has
+   to wait - one of the tree sizes the log has announced so far.  All explanations are kept. *)
+Fixpoint takes (fuel : nat) (s : sstate Z) (cands : list Z) (a b : Z) : list (sstate Z * nat) :=
+  match fuel with
+  | O => []
+  | S fuel' =>
+      match find_w is_idle (ws (fs s)) 0 with
+      | None => []
+      | Some w =>
+          let f := fs s in
+          let starts := if loop_on cfg f && wait_cond (c_variant cfg) (g_cur f) (g_end f)
+                        then flat_map (fun n => olist (sst s (LAccept n))) cands
+                        else [s] in
+          flat_map (fun s1 =>
+            match sst s1 (LTake w) with
+            | None => []
+            | Some s2 =>
+                match nth_error (ws (fs s2)) w with
+                | Some (WBusy a' b') =>
+                    if (a =? a') && (b =? b') then [(s2, w)]
+                    else if a' <? a then takes fuel' s2 cands a b else []
+                | Some WIdle => takes fuel' s2 cands a b     (* an empty range (original genRanges only) *)
+                | _ => []
+                end
+            end) starts
+      end
+  end.
+
+Definition replay_req (s : sstate Z) (cands : list Z) (a b : Z) (r : option (list Z)) : list (sstate Z) :=
   let honest := match r with
                 | Some es => zeqb_list es (log_slice log a (length es))
                 | None => true
                 end in
-  if negb honest then None else
-  let after_resp (s1 : sstate Z) (w : nat) :=
-      bind (sst s1 (LResp w (to_resp r)))
-           (fun s2 => match r with
-                      | Some _ => if scan then sst s2 (LCallback w) else Some s2
-                      | None => Some s2
-                      end) in
+  if negb honest then [] else
+  let after_resp (sw : sstate Z * nat) :=
+      olist (bind (sst (fst sw) (LResp (snd sw) (to_resp r)))
+                  (fun s2 => match r with
+                             | Some _ => if scan then sst s2 (LCallback (snd sw)) else Some s2
+                             | None => Some s2
+                             end)) in
   match find_w (is_busy a b) (ws (fs s)) 0 with
-  | Some w => after_resp s w
-  | None =>
-      match find_w is_idle (ws (fs s)) 0 with
-      | None => None
-      | Some w =>
-          let f := fs s in
-          let s1 := if loop_on cfg f && wait_cond (c_variant cfg) (g_cur f) (g_end f)
-                    then match sth with Some n => sst s (LAccept n) | None => None end
-                    else Some s in
-          bind s1 (fun s1 =>
-          bind (sst s1 (LTake w)) (fun s2 =>
-          match nth_error (ws (fs s2)) w with
-          | Some (WBusy a' b') => if (a =? a') && (b =? b') then after_resp s2 w else None
-          | _ => None
-          end))
-      end
+  | Some w => after_resp (s, w)
+  | None => flat_map after_resp (takes (S (length (ws (fs s)))) s cands a b)
   end.
 
 (* Run returns: the generator must be able to return, every worker must be able to return *)
@@ -132,70 +147,74 @@ Definition ekind_eqb (a b : ekind) : bool :=
   match a, b with KCert, KCert | KPrecert, KPrecert => true | _, _ => false end.
 
 Definition no_found (l : list (Z * Z)) : bool :=
-  forallb (fun ie => match found_of classify matches (c_variant cfg) mk po ie with [] => true | _ => false end) l.
+  forallb (fun ie => match found_of classify matches (c_svariant cfg) mk po ie with [] => true | _ => false end) l.
 
-Definition replay_ev (r : rstate) (e : ev) : option rstate :=
+Definition add_seen (n : Z) (l : list Z) : list Z := if existsb (Z.eqb n) l then l else l ++ [n].
+
+Definition with_m (r : rstate) (s : sstate Z) : rstate := {| m := s; seen := seen r; ph := PRunning |}.
+
+Definition replay_ev (r : rstate) (e : ev) : list rstate :=
   match ph r, e with
   | PPrepare, ESth (Some n) =>
-      Some {| m := sinit cfg (prepare_end opt_end n); last_sth := None; ph := PRunning |}
-  | PPrepare, ESth None => Some {| m := m r; last_sth := None; ph := PFailed |}
-  | PFailed, EReturn false _ => Some {| m := m r; last_sth := None; ph := PReturned |}
+      [{| m := sinit cfg (prepare_end opt_end n); seen := []; ph := PRunning |}]
+  | PPrepare, ESth None => [{| m := m r; seen := []; ph := PFailed |}]
+  | PFailed, EReturn false _ => [{| m := m r; seen := []; ph := PReturned |}]
   | PRunning, ESth (Some n) =>
       (* only the waiting generator of a continuous fetch asks for tree heads *)
-      if c_cont cfg then Some {| m := m r; last_sth := Some n; ph := PRunning |} else None
-  | PRunning, ESth None => if c_cont cfg then Some r else None
-  | PRunning, EReq a b rs =>
-      bind (replay_req (m r) (last_sth r) a b rs)
-           (fun s => Some {| m := s; last_sth := last_sth r; ph := PRunning |})
+      if c_cont cfg then [{| m := m r; seen := add_seen n (seen r); ph := PRunning |}] else []
+  | PRunning, ESth None => if c_cont cfg then [r] else []
+  | PRunning, EReq a b rs => map (with_m r) (replay_req (m r) (seen r) a b rs)
   | PRunning, ECb a es =>
-      if scan then None else
-      bind (find_w (is_got a es) (ws (fs (m r))) 0)
-           (fun w => bind (sst (m r) (LCallback w))
-                          (fun s => Some {| m := s; last_sth := last_sth r; ph := PRunning |}))
+      if scan then [] else
+      olist (bind (find_w (is_got a es) (ws (fs (m r))) 0)
+                  (fun w => bind (sst (m r) (LCallback w)) (fun s => Some (with_m r s))))
   | PRunning, EFound k i e =>
-      if negb scan then None else
-      bind (find_pool i e (pool (m r)))
-           (fun n => match found_of classify matches (c_variant cfg) mk po (i, e) with
+      if negb scan then [] else
+      olist (bind (find_pool i e (pool (m r)))
+           (fun n => match found_of classify matches (c_svariant cfg) mk po (i, e) with
                      | [(k', _, _)] =>
                          if ekind_eqb k k' then
-                           bind (sstep classify matches cfg mk po (m r) (SProc n))
-                                (fun s => Some {| m := s; last_sth := last_sth r; ph := PRunning |})
+                           bind (sstep classify matches cfg mk po (m r) (SProc n)) (fun s => Some (with_m r s))
                          else None
                      | _ => None
-                     end)
-  | PRunning, EStop => bind (sst (m r) LStop) (fun s => Some {| m := s; last_sth := last_sth r; ph := PRunning |})
-  | PRunning, ECancel => bind (sst (m r) LCancel) (fun s => Some {| m := s; last_sth := last_sth r; ph := PRunning |})
+                     end))
+  | PRunning, EStop => olist (bind (sst (m r) LStop) (fun s => Some (with_m r s)))
+  | PRunning, ECancel => olist (bind (sst (m r) LCancel) (fun s => Some (with_m r s)))
   | PRunning, EReturn true ret =>
-      bind (finalize (m r))
+      olist (bind (finalize (m r))
            (fun s => if scan
-                     then (if no_found (pool s) && (ret =? g_end (fs s))
-                           then Some {| m := s; last_sth := None; ph := PReturned |} else None)
-                     else Some {| m := s; last_sth := None; ph := PReturned |})
-  | _, _ => None
+                     then (if no_found (pool s)
+                              && ((ret =? g_end (fs s))
+                                  (* a continuous generator may have adopted one more announced size before returning *)
+                                  || (c_cont cfg && existsb (Z.eqb ret) (seen r) && (ret >? g_end (fs s))))
+                           then Some {| m := s; seen := []; ph := PReturned |} else None)
+                     else Some {| m := s; seen := []; ph := PReturned |}))
+  | _, _ => []
   end.
 
-(* replay; on rejection return the number of events accepted and the state reached *)
-Fixpoint replay (r : rstate) (evs : list ev) (n : N) : rstate * option N :=
+(* replay all explanations in parallel; on rejection return the number of events accepted
+   and one of the states reached *)
+Fixpoint replay (rs : list rstate) (evs : list ev) (n : N) : list rstate * option N :=
   match evs with
-  | [] => (r, None)
-  | e :: t => match replay_ev r e with
-              | Some r' => replay r' t (n + 1)
-              | None => (r, Some n)
+  | [] => (rs, None)
+  | e :: t => match flat_map (fun r => replay_ev r e) rs with
+              | [] => (rs, Some n)
+              | rs' => replay rs' t (n + 1)
               end
   end.
 
-Definition start_state : rstate := {| m := sinit cfg 0; last_sth := None; ph := PPrepare |}.
+Definition start_state : rstate := {| m := sinit cfg 0; seen := []; ph := PPrepare |}.
 
 Definition accepted (evs : list ev) : bool :=
-  match replay start_state evs 0 with
-  | (r, None) => match ph r with PReturned => true | _ => false end
+  match replay [start_state] evs 0 with
+  | (rs, None) => existsb (fun r => match ph r with PReturned => true | _ => false end) rs
   | _ => false
   end.
 
 End Replay.
 
 Definition mkcfg (batch : Z) (workers : nat) (start : Z) (cont : bool) : config :=
-  {| c_variant := the_code; c_batch := batch; c_workers := workers; c_start := start; c_cont := cont |}.
+  {| c_variant := the_code; c_svariant := the_scanner_code; c_batch := batch; c_workers := workers; c_start := start; c_cont := cont |}.
 
 Definition check (c : case) : bool :=
   match c with
@@ -208,14 +227,18 @@ Definition check (c : case) : bool :=
 (* what the model says: (index of the first event the model does not allow, if any;
    generator cursor and end; worker states; indices delivered; callbacks found so far) *)
 Definition explain (c : case) :=
-  let '(r, bad) :=
+  let '(rs, bad) :=
     match c with
     | CFetch batch workers start end_ cont log evs =>
         replay [] (mkcfg batch workers start cont) end_ false MCert false log
-               (start_state (mkcfg batch workers start cont)) evs 0
+               [start_state (mkcfg batch workers start cont)] evs 0
     | CScan batch workers start end_ cont mk po classes log evs =>
         replay classes (mkcfg batch workers start cont) end_ true mk po log
-               (start_state (mkcfg batch workers start cont)) evs 0
+               [start_state (mkcfg batch workers start cont)] evs 0
     end in
-  (bad, (g_cur (fs (m r)), g_end (fs (m r)), g_alive (fs (m r))), ws (fs (m r)),
-   map fst (delivered (fs (m r))), map (fun x => (fst (fst x), snd (fst x))) (found (m r))).
+  match rs with
+  | [] => (bad, (0, 0, false), [], [], [])
+  | r :: _ =>
+    (bad, (g_cur (fs (m r)), g_end (fs (m r)), g_alive (fs (m r))), ws (fs (m r)),
+     map fst (delivered (fs (m r))), map (fun x => (fst (fst x), snd (fst x))) (found (m r)))
+  end.
